@@ -176,6 +176,7 @@ let parse_op (text : string) : op =
      | "sremove" -> let (r, v) = rv () in SRemove (r, v)
      | "sunion" -> let (r, r2) = rr () in SUnion (r, r2)
      | "sinter" -> let (r, r2) = rr () in SInter (r, r2)
+     | "enumerate" -> let (r, _) = r1 () in Enumerate r
      | _ -> raise (Bad ("unknown op " ^ name)))
 
 let show_obj = function
